@@ -16,7 +16,6 @@ theorem Safe.noNl {k : Str} (h : Safe k) : NoNl k := by
   simp [notNl, this]
 
 theorem safe_litPass : Safe litPass := by unfold Safe litPass; decide
-theorem safe_litApi : Safe litApi := by unfold Safe litApi; decide
 
 theorem keygenUri_shape (addr user pass : Str) :
     keygenUri addr user pass =
@@ -60,55 +59,40 @@ theorem keygen_pass_independent (addr user p1 p2 : Str) (r : Reply) :
   | trunc b m => rfl
 
 /-- … nor on the key inside a successful response. -/
-theorem keygen_key_independent (addr user pass pre post : Str) {k1 k2 : Str} (h1 : NoNl k1) (h2 : NoNl k2) :
+theorem keygen_key_independent (addr user pass pre post k1 k2 : Str) :
     keygen addr user pass (.ok (keyBody pre k1 post)) = keygen addr user pass (.ok (keyBody pre k2 post)) := by
   unfold keygen keyBody
-  simp only [Reply.body, maskKey_independent h1 h2 pre post]
+  simp only [Reply.body, maskKey_independent k1 k2 pre post]
 
 /-- The `.login` entries of `getAPIKey` do not depend on the key either when the request fails
 after the `<key>` element has arrived (body cut off by an I/O error, or a status other than 200). -/
-theorem keygen_log_key_independent_trunc (addr user pass pre post m : Str) {k1 k2 : Str} (h1 : NoNl k1) (h2 : NoNl k2) :
+theorem keygen_log_key_independent_trunc (addr user pass pre post m k1 k2 : Str) :
     keygen addr user pass (.trunc (keyBody pre k1 post) m) = keygen addr user pass (.trunc (keyBody pre k2 post) m) := by
   unfold keygen keyBody
-  simp only [Reply.body, maskKey_independent h1 h2 pre post]
+  simp only [Reply.body, maskKey_independent k1 k2 pre post]
 
-theorem keygen_log_key_independent_status (addr user pass pre post : Str) (c : Nat) {k1 k2 : Str}
-    (h1 : NoNl k1) (h2 : NoNl k2) :
+theorem keygen_log_key_independent_status (addr user pass pre post : Str) (c : Nat) (k1 k2 : Str) :
     (keygen addr user pass (.status c (keyBody pre k1 post))).1 =
       (keygen addr user pass (.status c (keyBody pre k2 post))).1 := by
   unfold keygen keyBody
-  simp only [Reply.body, maskKey_independent h1 h2 pre post]
+  simp only [Reply.body, maskKey_independent k1 k2 pre post]
 
-theorem urlPrefix_shape (addr key uri : Str) :
-    urlPrefix addr key ++ uri = (addr ++ "/api/".toList) ++ (litApi ++ (key ++ '&' :: uri)) := by
-  unfold urlPrefix
-  have : "/api/?key=".toList = "/api/".toList ++ litApi := by decide
-  rw [this]
-  simp
-
-/-- `apiRE` applied to a request URL. -/
-theorem maskApi_url (addr uri : Str) {k1 k2 : Str} (h1 : Safe k1) (h2 : Safe k2) :
-    maskApi (urlPrefix addr k1 ++ uri) = maskApi (urlPrefix addr k2 ++ uri) := by
-  rw [urlPrefix_shape, urlPrefix_shape]
-  exact maskLazy_independent litApi false safe_litApi h1 h2 _ _
-
-theorem prefixGet_log (addr uri : Str) {k1 k2 : Str} (h1 : Safe k1) (h2 : Safe k2) (r : Reply) :
-    (prefixGet (urlPrefix addr k1) uri r).1 = (prefixGet (urlPrefix addr k2) uri r).1 := by
-  unfold prefixGet
-  simp only [maskApi_url addr uri h1 h2]
+/-- `httpPrefixGetLog` logs the URL with the masked prefix: the log entries do not depend on the key at
+all — for EVERY key (fix c4a38c5; before, `apiRE` left what stands behind an `&` of the key). -/
+theorem prefixGet_log (addr uri k1 k2 : Str) (r : Reply) :
+    (prefixGet (logPrefix addr) (urlPrefix addr k1) uri r).1 = (prefixGet (logPrefix addr) (urlPrefix addr k2) uri r).1 := rfl
 
 def Reply.isTerr : Reply → Bool
   | .terr _ => true
   | _ => false
 
 theorem prefixGet_err (addr uri : Str) (k1 k2 : Str) (r : Reply) (hr : r.isTerr = false) :
-    (prefixGet (urlPrefix addr k1) uri r).2 = (prefixGet (urlPrefix addr k2) uri r).2 := by
+    (prefixGet (logPrefix addr) (urlPrefix addr k1) uri r).2 = (prefixGet (logPrefix addr) (urlPrefix addr k2) uri r).2 := by
   cases r <;> simp_all [prefixGet, Reply.isTerr]
 
-theorem prefixGet_eq (addr uri : Str) {k1 k2 : Str} (h1 : Safe k1) (h2 : Safe k2) (r : Reply)
-    (hr : r.isTerr = false) :
-    prefixGet (urlPrefix addr k1) uri r = prefixGet (urlPrefix addr k2) uri r :=
-  Prod.ext (prefixGet_log addr uri h1 h2 r) (prefixGet_err addr uri k1 k2 r hr)
+theorem prefixGet_eq (addr uri k1 k2 : Str) (r : Reply) (hr : r.isTerr = false) :
+    prefixGet (logPrefix addr) (urlPrefix addr k1) uri r = prefixGet (logPrefix addr) (urlPrefix addr k2) uri r :=
+  Prod.ext (prefixGet_log addr uri k1 k2 r) (prefixGet_err addr uri k1 k2 r hr)
 
 /-- The request loop reaches a transport error (before any other failure). -/
 def hitsTerr : List Req → List Reply → Bool
@@ -127,9 +111,9 @@ def leakPath (kg : Reply) (reqs : List Req) (reps : List Reply) : Bool :=
   | .ok _, .ok _ :: rest => hitsTerr reqs rest
   | _, _ => false
 
-theorem panosReqs_independent (addr : Str) {k1 k2 : Str} (h1 : Safe k1) (h2 : Safe k2) :
+theorem panosReqs_independent (addr k1 k2 : Str) :
     ∀ (reqs : List Req) (reps : List Reply) (s : Sinks), hitsTerr reqs reps = false →
-      panosReqs (urlPrefix addr k1) reqs reps s = panosReqs (urlPrefix addr k2) reqs reps s := by
+      panosReqs (logPrefix addr) (urlPrefix addr k1) reqs reps s = panosReqs (logPrefix addr) (urlPrefix addr k2) reqs reps s := by
   intro reqs
   induction reqs with
   | nil => intro reps s _; simp [panosReqs]
@@ -140,7 +124,7 @@ theorem panosReqs_independent (addr : Str) {k1 k2 : Str} (h1 : Safe k1) (h2 : Sa
     | cons r rs =>
       have hr : r.isTerr = false := by
         cases r <;> simp_all [hitsTerr, Reply.isTerr]
-      simp only [panosReqs, prefixGet_eq addr q.uri h1 h2 r hr]
+      simp only [panosReqs, prefixGet_eq addr q.uri k1 k2 r hr]
       cases r with
       | terr m => simp [Reply.isTerr] at hr
       | ok b =>
